@@ -16,10 +16,14 @@ Constructor options are a dimension of the configuration space (constants StepOp
 documented option value of every geometry is a maps configuration and goes through every invariant and every replayed facet;
 fun2par of a matrix of stacked functions is column-wise (ColumnwiseF2P; deviation batchreduce); the table option value x
 facet is part of the evidence (observation option_value_x_facet) and guarded (_vacuity_options).
+Second module specs/GeometryShapeMap.tla (helper cuqiverif/c13_shapemap.py): MappedGeometry whose map CHANGES THE SHAPE of the
+function values (sub-sampling, concatenation, reshape 1-D <-> 2-D, transposition, reduction to one number, stacks of two): the
+reported fun_shape / fun_dim are those of what par2fun produces (ShapesInv; deviation innershape = the wrapper answers with the
+wrapped geometry's shape), Samples.funvals allocates fun_shape + (Ns,) (SamplesInv), round trip where every map has an inverse.
 """
 META = {
     "claimed": True,
-    "engine": "Geometry.tla",
+    "engine": "Geometry.tla + GeometryShapeMap.tla",
     "text": ("TLC enumerates Continuous1D / default / Discrete (n<=4/6), Image2D C and F order, visual-only, default 2D and "
              "Continuous2D (r,c<=3/4 incl. 1xn), MappedGeometry (structurally: par2fun = map . inner.par2fun, fun2par = "
              "inner.fun2par . imap; affine, cube, exp and two stacked maps over 1D / discrete / image C,F / visual-only / "
@@ -45,7 +49,15 @@ META = {
              "fun2par to the stacked functions as a matrix of 1, 2, 3 columns and column by column for every projection "
              "option, records which option value was replayed with which facet (guarded: every documented value x every "
              "facet), replays every conversion behaviour comparing flags, array shape, Ns and content after "
-             "every action, and replays every use / reassign behaviour on one real object comparing after every action."),
+             "every action, and replays every use / reassign behaviour on one real object comparing after every action. "
+             "GeometryShapeMap.tla: MappedGeometry with SHAPE-CHANGING maps (f[::2], concatenate([f, 2f+1]), reshape 1-D <-> 2-D, "
+             "transpose, array([f.sum()]), and stacks of two = nested wrappers) over Continuous1D / Discrete / Image2D C, F / "
+             "Continuous2D / visual-only / StepExpansion; function values are records (shape, entries in C order); ShapesInv (the "
+             "reported fun_shape - inferred by applying par2fun to ones - and fun_dim are the shape / size of par2fun(p) for all "
+             "basis vectors and ramps; the named deviation 'wrapper answers with the wrapped geometry's fun_shape' must violate it), "
+             "SamplesInv (funvals of 1, 2, 3 samples fits fun_shape + (Ns,)), RoundTripInv (stacks whose maps all have an inverse); "
+             "every configuration is replayed: reported shapes / dims, funvec_shape where the vector form is defined, par2fun shape "
+             "and entries, fun2par(par2fun(p)), Samples.funvals (shape, Ns, flags, every sample), .funvals.parameters, CUQIarray."),
     "note": ("Bounded sizes; KLExpansion is specified abstractly in the sine basis written in its docstring (decay 2, "
              "normalizer 12; compared to 1e-10), KLExpansion_Full / CustomKL / FEniCS geometries are not modelled. "
              "Maps of a mapped geometry are applied by the harness in floating point to the specification's pre-image "
@@ -60,7 +72,9 @@ META = {
              "as the steps still partition the grid; step grids are built with np.linspace from correctly rounded "
              "end points. Letter-case insensitivity of fun2par_projection is taken from tests/test_geometry.py ('MiN'); "
              "KL decay rates are multiples of 1/2, normalizers integers; the default normalizer (docstring 1.0, signature "
-             "12.0) and fun2par of a MappedGeometry without imap are observations."),
+             "12.0) and fun2par of a MappedGeometry without imap are observations. Shape-changing maps: the vector form (funvec_shape, "
+             "Samples.vector) is asserted only for a 1-D result over an inner geometry with the base-class vector form; "
+             "batches handed to a shape-changing map itself are not asserted (the map is the user's)."),
     "technique": "TLA+ spec (Geometry) model-checked with TLC; TLC-emitted index maps, partitions and conversion "
                  "behaviours replayed into cuqi.geometry, cuqi.samples.Samples and cuqi.array.CUQIarray",
 }
@@ -1488,6 +1502,9 @@ def run(ctx, only=None, only_seq=None):
     if only is None and only_seq is None:
         ctx.observe("seq_behaviours", {"replayed": nseq, "reassignments_applied": nsets})
         _vacuity_options(ctx)
+        # maps that change the SHAPE of the function values (specs/GeometryShapeMap.tla)
+        from cuqiverif import c13_shapemap
+        c13_shapemap.run_part(ctx)
     ctx.observe("configurations_by_kind", kinds)
     ks = sorted(maps)
     for pick in [k for k in ks if k.startswith("image/Image2D_F/r=2/c=3")][:1] + [k for k in ks if k.startswith("step/") and "n=6/s=5" in k][:1] \
@@ -1533,6 +1550,9 @@ def run(ctx, only=None, only_seq=None):
 def replay(ctx, case):
     if case.get("kind") == "model":
         return run(ctx)
+    if case.get("kind") == "shapemap":
+        from cuqiverif import c13_shapemap
+        return c13_shapemap.run_part(ctx, only=c13_shapemap.skey(case["c"]))
     if case.get("kind") == "seq":
         return run(ctx, only_seq=(ckey(case["c0"]), seq_trail_key(case["c0"], case["trail"])))
     c = case["c"]
